@@ -129,6 +129,21 @@ Definition mdefault_ok (m : mdefault) : bool :=
   | UEscapes => Nat.ltb 0 (m_calls m) && Nat.eqb (m_calls m) (m_explicit m)
   end.
 
+(* nested settings objects: _check_seed WRITES the seed onto self.elasticnet and self.temporal_cluster.  That is a write
+   to the object's own state only if those nested objects are made per settings object; `default=X()` of a frozen
+   (hashable) pydantic model is ONE instance shared by every settings object of the process *)
+Inductive ndkind :=
+| NdFactory     (* default_factory: a new object per instance *)
+| NdCopied      (* a default that pydantic copies per instance *)
+| NdShared.     (* two settings objects were built and hold the very same nested object *)
+Definition nd_ok (n : string * string * ndkind) : bool :=
+  match snd n with NdShared => false | _ => true end.
+(* every nested object a `_seed` is written to is per instance, in every class that has the field *)
+Definition seed_write_ok (nested : list (string * string * ndkind)) (a : attr_assign) : bool :=
+  String.eqb (a_owner a) "" ||
+  (existsb (fun n => String.eqb (snd (fst n)) (a_owner a)) nested &&
+   forallb (fun n => negb (String.eqb (snd (fst n)) (a_owner a)) || nd_ok n) nested).
+
 (* optimiser start vectors: optimize.py obj_fcn_dec writes every trial point INTO the x0 array it was given
    (x0[idx_opt] = x), so an x0 that outlives the call would carry one fit's last trial point into the next *)
 Inductive x0kind :=
